@@ -8,6 +8,7 @@ import (
 	"io"
 	"net"
 	"reflect"
+	"strings"
 	"sync"
 	"time"
 
@@ -397,8 +398,76 @@ func disambiguate() map[byte]string {
 	return out
 }
 
+// fullStackSegments: decoding must not depend on packet boundaries either when the parser works
+// next to the responder on a live connection (they share pooled header buffers, and what was
+// answered before may decide what a buffer looks like when the next request is read). A command
+// sequence is sent through parser -> server loop -> orchestrator -> handler with one request at a
+// time cut up in every listed way; replies must be the reference map's and the backend must end up
+// exactly as when everything is sent whole.
+func fullStackSegments(c *rt.Ctx, item *int) {
+	for _, cfg := range []Cfg{{Orca: "l1only", Lock: "none", Proto: "binary", L1H: "std"}, {Orca: "l1l2", Lock: "none", Proto: "binary", L1H: "std"},
+		{Orca: "l1only", Lock: "none", Proto: "text", L1H: "std"}, {Orca: "l1l2b", Lock: "multi", Proto: "binary", L1H: "chunked", App: true, Conc: 2}} {
+		bin := cfg.Proto == "binary"
+		big := string(wire.GenValue(300, 9))
+		if !bin {
+			big = strings.Repeat("segmented-value ", 20)
+		}
+		ops := []wire.Op{
+			{Kind: "set", Key: "user:1234:profile", Val: "hello-world-value", Flags: 0xCAFEF00D, TTL: 3600},
+			{Kind: "get", Key: "user:1234:profile"},
+			{Kind: "set", Key: "b", Val: big, Flags: 7},
+			{Kind: "mget", Keys: []string{"user:1234:profile", "nope", "b"}, Quiet: []bool{bin, bin, false}},
+			{Kind: "append", Key: "b", Val: "-tail"},
+			{Kind: "add", Key: "c", Val: "v", Flags: 1, TTL: 100},
+			{Kind: "touch", Key: "user:1234:profile", TTL: 100},
+			{Kind: "replace", Key: "c", Val: "w", Flags: 2},
+			{Kind: "delete", Key: "b"},
+			{Kind: "get", Key: "c"},
+		}
+		if bin {
+			ops = append(ops[:2:2], append([]wire.Op{{Kind: "gat", Key: "user:1234:profile", TTL: 50}}, ops[2:]...)...)
+			if cfg.Orca == "l1only" {
+				// a get-with-expiry hit: the one reply with extras of a different size
+				ops = append(ops[:2:2], append([]wire.Op{{Kind: "gete", Key: "user:1234:profile"}}, ops[2:]...)...)
+			}
+		}
+		var wholeKey string
+		for oi := -1; oi < len(ops); oi++ {
+			for _, seg := range []string{"h", "1", "b", "3", "l"} {
+				if oi < 0 && seg != "h" {
+					continue // oi = -1: everything whole (the reference run)
+				}
+				*item++
+				if !c.Mine(*item) && oi >= 0 {
+					continue
+				}
+				run := append([]wire.Op{}, ops...)
+				if oi >= 0 {
+					run[oi].Seg = seg
+				}
+				sc := SeqScenario{Harness: "C07", Cfg: cfg, Ops: run}
+				var r *SeqResult
+				InBubble(c.T, func() { r = RunSeq(sc, SeqOpts{}) })
+				c.Eval(1)
+				c.Trace(1)
+				for _, f := range r.Findings {
+					c.Violation(f.Sig+" segmented-on-a-live-connection", f.What, sc)
+				}
+				if oi < 0 {
+					wholeKey = r.StateKey
+				} else if len(r.Findings) == 0 && r.StateKey != wholeKey {
+					c.Violation(fmt.Sprintf("C07 state-depends-on-segmentation proto=%s", cfg.Proto), fmt.Sprintf("request %d (%s) sent as %q: backends end up as %s, sent whole as %s", oi, ops[oi], seg, r.StateKey, wholeKey), sc)
+				}
+				c.Distinct(fmt.Sprintf("live|%s|%d|%s", cfg, oi, seg))
+				c.Nontrivial(fmt.Sprintf("live|%s|%d|%s", cfg, oi, seg))
+			}
+		}
+	}
+}
+
 func runC07(c *rt.Ctx) {
 	item := 0
+	fullStackSegments(c, &item)
 	report := func(proto, clause, detail string, ops []wire.Op, cuts []int) {
 		tags := ""
 		for _, o := range ops {
